@@ -34,7 +34,7 @@ GEN = os.path.join(ROOT, "coq", "Gen")
 EXTRA_FUNCTIONS = [  # thread bodies and internal functions that run outside a public bracket
     "ares_event_thread", "ares_reinit_thread", "ares_event_configchg_cb", "ares_event_thread_process_fd",
     "notifywrite_cb", "ares_event_thread_sockstate_cb", "set_servers_csv", "ares_init_by_sysconfig",
-    "ares_event_process_updates", "ares_event_update",
+    "ares_event_process_updates", "ares_event_update", "ares_queue_notify_empty",
 ]
 
 
